@@ -4,6 +4,7 @@ import (
 	"context"
 	"os"
 	"path/filepath"
+	"syscall"
 	"testing"
 	"time"
 
@@ -98,5 +99,37 @@ func TestPtraceSelf(t *testing.T) {
 		}
 		b, _ := os.ReadFile(out)
 		t.Logf("k=%d died before %s; destination has %d bytes", k, r2.killedAt, len(b))
+	}
+}
+
+// TestPtraceFaultSelf: a write that fails with ENOSPC makes the real extract fail; a sticky one as well.
+func TestPtraceFaultSelf(t *testing.T) {
+	if desyncBin() == "" {
+		t.Skip("no binary")
+	}
+	dir := t.TempDir()
+	out := filepath.Join(dir, "out")
+	args := []string{"extract", "-n", "1", "-s", filepath.Join(repoDir(), "cmd/desync/testdata/blob1.store"), filepath.Join(repoDir(), "cmd/desync/testdata/blob1.caibx"), out}
+	r, err := runTraced(0, dir, time.Minute, args...)
+	if err != nil || r.exit != 0 {
+		t.Fatalf("%v %+v", err, r)
+	}
+	for _, sticky := range []bool{false, true} {
+		k := 0
+		for i, p := range r.points {
+			if p == "pwrite64" {
+				k = i + 1
+				break
+			}
+		}
+		os.Remove(out)
+		r2, err := runTracedFault(k, &sysFault{errno: syscall.ENOSPC, sticky: sticky}, dir, time.Minute, args...)
+		if err != nil || r2.signaled {
+			t.Fatalf("%v %+v", err, r2)
+		}
+		t.Logf("sticky=%v: call %d (%s) failed with ENOSPC, exit %d", sticky, k, r2.killedAt, r2.exit)
+		if r2.exit == 0 {
+			t.Fatalf("extract succeeded although a write failed")
+		}
 	}
 }
